@@ -36,6 +36,7 @@ type Session struct {
 	private           struct {
 		mutex   sync.Mutex
 		onClose []EventFunc
+		closed  bool // the callbacks have been taken by shutdown
 	}
 	connectionCacheSize        uint16
 	disableTCPSignalMessageCSM bool
@@ -111,6 +112,12 @@ func (s *Session) Done() <-chan struct{} {
 
 func (s *Session) AddOnClose(f EventFunc) {
 	s.private.mutex.Lock()
+	if s.private.closed {
+		// the connection has ended already: nobody will run the list again
+		s.private.mutex.Unlock()
+		f()
+		return
+	}
 	defer s.private.mutex.Unlock()
 	s.private.onClose = append(s.private.onClose, f)
 }
@@ -120,6 +127,7 @@ func (s *Session) popOnClose() []EventFunc {
 	defer s.private.mutex.Unlock()
 	tmp := s.private.onClose
 	s.private.onClose = nil
+	s.private.closed = true
 	return tmp
 }
 
